@@ -3,6 +3,7 @@
 package main
 
 import (
+	"encoding/json"
 	"flag"
 	"fmt"
 	"os"
@@ -46,6 +47,7 @@ func main() {
 		replay  = flag.String("replay", "", "re-decide the obligation named in a replay file")
 		list    = flag.Bool("list", false, "list every obligation, not only failures")
 		variant = flag.String("variant", "", "battery: analyse one seeded variant (internal)")
+		battery = flag.Bool("battery", false, "run only the seeded-variant battery of the property and print the matrix")
 	)
 	flag.Parse()
 	if *replay != "" {
@@ -53,6 +55,11 @@ func main() {
 	}
 	if *variant != "" {
 		os.Exit(runVariant(*prop, *variant, *repo))
+	}
+	if *battery {
+		b, _ := json.MarshalIndent(runBattery(*prop, *repo), "", " ")
+		fmt.Println(string(b))
+		os.Exit(0)
 	}
 	p := properties[*prop]
 	if p == nil {
